@@ -625,7 +625,7 @@ void run_case(vf::Case& c)
 {
     if (c.enumerated) {
         bool th = c.tier == vf::Tier::thorough;
-        enumerate_first_op<Subject>((unsigned)c.index, th ? 3 : 2, th ? 2 : 3);
+        enumerate_first_op<Subject>((unsigned)c.index, th ? 4 : 3, th ? 2 : 3);
     } else {
         random_history<Subject>(c.rng, 50, 3);
     }
